@@ -25,6 +25,7 @@ import (
 	"go/parser"
 	"go/printer"
 	"go/token"
+	"reflect"
 	"strings"
 )
 
@@ -870,6 +871,20 @@ func cleanList(fset *token.FileSet, list []ast.Stmt) []ast.Stmt {
 		case *ast.BlockStmt:
 			x.List = cleanList(fset, x.List)
 		}
+		// a, b = a, b  (what is left of `a, b = h(a, b)` once h's body has been spliced in): nothing
+		if as, ok := s.(*ast.AssignStmt); ok && as.Tok == token.ASSIGN && len(as.Lhs) == len(as.Rhs) {
+			same := true
+			for k := range as.Lhs {
+				l, lok := as.Lhs[k].(*ast.Ident)
+				r, rok := as.Rhs[k].(*ast.Ident)
+				if !lok || !rok || l.Name != r.Name {
+					same = false
+				}
+			}
+			if same {
+				continue
+			}
+		}
 		// a, b := e, v  (v a plain variable, b new): drop the pair, use v for b in what follows
 		if as, ok := s.(*ast.AssignStmt); ok && as.Tok == token.DEFINE && len(as.Lhs) >= 2 && len(as.Lhs) == len(as.Rhs) {
 			var keepL, keepR []ast.Expr
@@ -988,7 +1003,11 @@ func inlineHelpers(fset *token.FileSet, files []*ast.File, names []string) (*tok
 	var nfiles []*ast.File
 	for i, f := range files {
 		f.Comments = nil
-		text := nodeText(fset, f)
+		// forget every source position: the printer then lays the (partly spliced) tree out canonically
+		clearPositions(f)
+		pfset := token.NewFileSet()
+		pfset.AddFile(names[i], -1, 16)
+		text := nodeText(pfset, f)
 		nf, err := parser.ParseFile(nfset, names[i], text, 0)
 		if err != nil {
 			return fset, files, false
@@ -1010,6 +1029,66 @@ func funcScope(fd *ast.FuncDecl) map[string]bool {
 		}
 	}
 	return m
+}
+
+// normalizeComparisons brings two spellings of the same test to one: an if/else whose condition is `a > b`, `a >= b`,
+// `a != b` or `!c` becomes the negated condition with the branches exchanged (the modelled source writes its two-way
+// decisions with `<=`, `<`, `==`), and `x + k == y` (k an integer literal) becomes `x == y - k`.
+func normalizeComparisons(files []*ast.File) {
+	for _, f := range files {
+		ast.Inspect(f, func(n ast.Node) bool {
+			switch x := n.(type) {
+			case *ast.IfStmt:
+				eb, ok := x.Else.(*ast.BlockStmt)
+				if !ok || x.Init != nil {
+					return true
+				}
+				flip := false
+				switch c := x.Cond.(type) {
+				case *ast.BinaryExpr:
+					flip = c.Op == token.GTR || c.Op == token.GEQ || c.Op == token.NEQ
+				case *ast.UnaryExpr:
+					flip = c.Op == token.NOT
+				}
+				if flip {
+					x.Cond, x.Body, x.Else = negate(x.Cond), eb, x.Body
+				}
+			case *ast.BinaryExpr:
+				if x.Op == token.EQL {
+					if l, ok := x.X.(*ast.BinaryExpr); ok && l.Op == token.ADD {
+						if k, ok := l.Y.(*ast.BasicLit); ok && k.Kind == token.INT {
+							x.X, x.Y = l.X, &ast.BinaryExpr{X: x.Y, Op: token.SUB, Y: k}
+						}
+					}
+				}
+			}
+			return true
+		})
+	}
+}
+
+func clearPositions(root ast.Node) {
+	posType := reflect.TypeOf(token.NoPos)
+	ast.Inspect(root, func(n ast.Node) bool {
+		if n == nil {
+			return false
+		}
+		v := reflect.ValueOf(n)
+		if v.Kind() == reflect.Ptr && !v.IsNil() {
+			e := v.Elem()
+			if e.Kind() == reflect.Struct {
+				for i := 0; i < e.NumField(); i++ {
+					f := e.Field(i)
+					// a valid position stays valid (an ellipsis, an alias `=`, a parenthesised declaration are
+					// recorded as valid positions), but all of them become the same place
+					if f.Type() == posType && f.CanSet() && f.Int() != 0 {
+						f.SetInt(1)
+					}
+				}
+			}
+		}
+		return true
+	})
 }
 
 func identsOf(fd *ast.FuncDecl) map[string]bool {
